@@ -82,6 +82,7 @@ fn main() {
         std::process::exit(1);
     }
 
+    runner::set_current_prop(&prop);
     let thorough = tier == "thorough";
     bsv_core::crash::watchdog(if thorough { spec.thorough_budget_s } else { spec.quick_budget_s });
     let mut evaluations = 0u64;
